@@ -34,6 +34,9 @@ type ParamSpec struct {
 	HasDef  bool   `json:"has_default"`
 	// PathLevel: declared on the path item instead of the operation
 	PathLevel bool `json:"path_level,omitempty"`
+	// Garbage (present integer / anyof parameters): the text sent is "abc", which the schema cannot read:
+	// the request is invalid and keeps that text, alone
+	Garbage bool `json:"garbage,omitempty"`
 	// Style (query arrays): "" (form) | pipeDelimited | spaceDelimited
 	Style string `json:"style,omitempty"`
 	// Empty (query, with Present): declared with allowEmptyValue and sent as "name=": it is present, so
@@ -67,7 +70,7 @@ func TestReplay(t *testing.T) { prop.Replay(t) }
 
 func paramDefault(p ParamSpec) any {
 	switch p.Kind {
-	case "integer":
+	case "integer", "anyof":
 		if p.Name == "pb" {
 			return 1000000.0 // seven digits: has to be written as 1000000, not with an exponent
 		}
@@ -86,6 +89,9 @@ func paramSchema(p ParamSpec) M {
 		s = M{"type": "integer", "maximum": 5000000.0}
 	case "string":
 		s = M{"type": "string", "minLength": 1.0}
+	case "anyof":
+		// alternatives none of which reads arbitrary text
+		s = M{"anyOf": []any{M{"type": "integer", "maximum": 5000000.0}, M{"type": "boolean"}}}
 	default:
 		s = M{"type": "array", "items": M{"type": "integer"}}
 	}
@@ -291,12 +297,15 @@ func newRequest(c Case) *http.Request {
 		}
 		var v any
 		switch p.Kind {
-		case "integer":
+		case "integer", "anyof":
 			v = 9.0
 		case "string":
 			v = "sent"
 		default:
 			v = []any{1.0, 2.0}
+		}
+		if p.Garbage {
+			v = "abc"
 		}
 		explode := p.In == "query" || p.In == "cookie"
 		if p.Explode != "" {
@@ -417,7 +426,19 @@ func check(c Case) (o h.Outcome) {
 		}
 	}
 	authFails := strings.HasPrefix(c.Auth, "fail")
-	expectOK := !c.Invalid && !authFails
+	garbage := false
+	for _, p := range c.Params {
+		if p.Present && p.Garbage {
+			garbage = true
+			o.Class("garbage-parameter:%s:%s:default=%v:skip=%v", p.In, p.Kind, p.HasDef, c.Skip)
+			// a value that is there is never replaced or accompanied by the default, readable or not
+			if got := rawValues(req, p); len(got) != 1 || got[0] != "abc" {
+				o.Fail(fmt.Sprintf("present-value-not-kept:%s:%s", p.In, p.Kind), "%s parameter %q was sent as \"abc\" (unreadable for its schema, default %v); after ValidateRequest (err=%v) the request carries %q for it\ncase=%s", p.In, p.Name, p.HasDef, short(verr), got, dump(c))
+				return
+			}
+		}
+	}
+	expectOK := !c.Invalid && !authFails && !garbage
 	o.Class("verdict:%v:skip=%v:auth=%s:%s", verr == nil, c.Skip, c.Auth, c.Style)
 	o.NonTrivial = (defaulted || paramDefaulted) && (strings.ContainsAny(c.Features, "noaxyr") || hasArrayDefault(c) || strings.HasSuffix(c.Auth, "-read") || c.Style == "server")
 	if (verr == nil) != expectOK {
@@ -522,6 +543,24 @@ func check(c Case) (o h.Outcome) {
 	return
 }
 
+// rawValues: the texts the request carries for a parameter, as a server would see them
+func rawValues(req *http.Request, p ParamSpec) []string {
+	switch p.In {
+	case "query":
+		return req.URL.Query()[p.Name]
+	case "header":
+		return req.Header.Values(p.Name)
+	default:
+		var out []string
+		for _, ck := range req.Cookies() {
+			if ck.Name == p.Name {
+				out = append(out, ck.Value)
+			}
+		}
+		return out
+	}
+}
+
 func hasArrayDefault(c Case) bool {
 	for _, p := range c.Params {
 		if p.Kind == "array" && p.HasDef && !p.Present {
@@ -613,17 +652,20 @@ func gen(t *rapid.T) Case {
 	seen := map[string]bool{}
 	for i := 0; i < n; i++ {
 		p := ParamSpec{In: rapid.SampledFrom([]string{"query", "query", "header", "cookie"}).Draw(t, "in"), Name: rapid.SampledFrom([]string{"pa", "pb", "pc", "X-D"}).Draw(t, "name"),
-			Kind: rapid.SampledFrom([]string{"integer", "string", "array"}).Draw(t, "kind"), Present: rapid.Bool().Draw(t, "present"), HasDef: rapid.IntRange(0, 3).Draw(t, "hasdef") > 0, PathLevel: rapid.IntRange(0, 2).Draw(t, "pathlevel") == 0}
+			Kind: rapid.SampledFrom([]string{"integer", "string", "array", "anyof"}).Draw(t, "kind"), Present: rapid.Bool().Draw(t, "present"), HasDef: rapid.IntRange(0, 3).Draw(t, "hasdef") > 0, PathLevel: rapid.IntRange(0, 2).Draw(t, "pathlevel") == 0}
 		if p.In == "query" || p.In == "header" {
 			p.Explode = rapid.SampledFrom([]string{"", "true", "false"}).Draw(t, "explode")
 		}
 		if p.In == "cookie" {
 			p.Explode = "false" // the cookie default explode=true cannot carry arrays (C05 finding)
 		}
+		if p.Present && (p.Kind == "integer" || p.Kind == "anyof") && rapid.IntRange(0, 4).Draw(t, "garbage") == 0 {
+			p.Garbage = true
+		}
 		if p.In == "query" && p.Kind == "array" && rapid.IntRange(0, 2).Draw(t, "delimstyle") == 0 {
 			p.Style = rapid.SampledFrom([]string{"pipeDelimited", "spaceDelimited"}).Draw(t, "delimstylev")
 		}
-		if p.In == "query" && p.Present && p.Kind != "array" && rapid.IntRange(0, 3).Draw(t, "emptyallowed") == 0 {
+		if p.In == "query" && p.Present && !p.Garbage && p.Kind != "array" && rapid.IntRange(0, 3).Draw(t, "emptyallowed") == 0 {
 			p.Empty = true
 		}
 		if seen[p.In+p.Name] {
